@@ -112,6 +112,11 @@ static void classify(Pair& p, q128 lon12q) {
   p.kx = known_family(false, p.e.f, p.lat1, p.lat2, lon12q);
   p.ks = p.e.series_ok ? known_family(true, p.e.f, p.lat1, p.lat2, lon12q) : "";
 }
+// observed maxima are recorded for the healthy regimes only (inside a known-defect regime the residuals are meaningless for calibration)
+static void obsv(Ctx& c, const Pair& p, char which, const std::string& name, double v, const J& j = J()) {
+  bool known = which == 'n' ? false : (which != 's' && !p.kx.empty()) || (which != 'x' && !p.ks.empty());
+  if (!known) c.obs(name, v, j);
+}
 // which: 'x' exact solver's output involved, 's' series, 'b' both
 static void report(Ctx& c, const Pair& p, char which, const std::string& key, const J& detail) {
   static const std::string none;
@@ -175,17 +180,17 @@ static int judge_one(Ctx& c, const gh::Solvers& S, const Pair& p, const char* so
   // (a distance that is negative by more than the tolerance is a different failure from a round-off sized one)
   if (!(o.s12 >= 0) || std::signbit(o.s12)) bad(std::string(o.s12 < -T ? "range/s12-grossly-negative/" : "range/s12-negative/") + p.regime + "/" + shape_of(p.e.f), o.s12, 0);
   // (ii d) a shortest path contains no conjugate point: m12 >= 0
-  c.obs("negative m12 / tolerance [" + sv + "]", -o.m12 / T, wit(p, solver).f("m12", o.m12));
+  obsv(c, p, series ? 's' : 'x', "negative m12 / tolerance [" + sv + "]", -o.m12 / T, wit(p, solver).f("m12", o.m12));
   if (!(o.m12 >= -T)) bad("not-shortest/m12-negative/" + p.regime + "/" + shape_of(p.e.f), -o.m12, T);
   // (i) join
   double epos, eazi, earc, elon, rm12;
   join_resid<ld>(S, p, o, lon12q, epos, eazi, earc, elon, rm12);
   if (epos > 0.4 * T || eazi > 0.8 * T || earc > 0.4 * T || elon > 0) join_resid<q128>(S, p, o, lon12q, epos, eazi, earc, elon, rm12);   // confirm in float128
-  c.obs("join: miss distance / tolerance [" + sv + "]", epos / T, wit(p, solver).f("err_m", epos));
-  c.obs("join: azi2 residual*|m12| / tolerance [" + sv + "]", eazi / (2 * T), wit(p, solver).f("err_m", eazi));
-  c.obs("join: a12 residual / tolerance [" + sv + "]", earc / T, wit(p, solver).f("err_m", earc));
-  c.obs("join: miss distance [nm, scaled to a=WGS84] " + sv + " " + p.e.bucket, epos * 1e9 * gh::WGS84_A / p.e.a);
-  c.obs("join: miss distance / tolerance [" + sv + "] regime " + p.regime, epos / T, wit(p, solver).f("err_m", epos));
+  obsv(c, p, series ? 's' : 'x', "join: miss distance / tolerance [" + sv + "]", epos / T, wit(p, solver).f("err_m", epos));
+  obsv(c, p, series ? 's' : 'x', "join: azi2 residual*|m12| / tolerance [" + sv + "]", eazi / (2 * T), wit(p, solver).f("err_m", eazi));
+  obsv(c, p, series ? 's' : 'x', "join: a12 residual / tolerance [" + sv + "]", earc / T, wit(p, solver).f("err_m", earc));
+  obsv(c, p, series ? 's' : 'x', "join: miss distance [nm, scaled to a=WGS84] " + sv + " " + p.e.bucket, epos * 1e9 * gh::WGS84_A / p.e.a);
+  obsv(c, p, series ? 's' : 'x', "join: miss distance / tolerance [" + sv + "] regime " + p.regime, epos / T, wit(p, solver).f("err_m", epos));
   const std::string rg = subregime(p, o);
   if (epos > T) bad("join/miss-distance/" + rg, epos, T);
   // azi2 is compared with the forward azimuth of REF's geodesic started with the library's (slightly wrong) azi1:
@@ -206,8 +211,8 @@ template <class G> static void judge_line(Ctx& c, const gh::Solvers& S, const G&
   q128 dalp = remainderq((q128)azi - (q128)o.azi2, 360) * ref::deg<q128>(), dlam = remainderq((q128)lon - (q128)p.lon2, 360) * ref::deg<q128>();
   double eazi = (double)(fabsq(sinq(dalp) * cosq(dlam) - cosq(dalp) * sinq(dlam) * sinq((q128)p.lat2 * ref::deg<q128>()))) * std::fabs(o.m12);
   std::string sv = solver;
-  c.obs("InverseLine: Position(Distance()) miss / tolerance [" + sv + "]", epos / (2 * T), wit(p, solver).f("err_m", epos));
-  c.obs("InverseLine: Distance()-s12 / tolerance [" + sv + "]", es / T);
+  obsv(c, p, series ? 's' : 'x', "InverseLine: Position(Distance()) miss / tolerance [" + sv + "]", epos / (2 * T), wit(p, solver).f("err_m", epos));
+  obsv(c, p, series ? 's' : 'x', "InverseLine: Distance()-s12 / tolerance [" + sv + "]", es / T);
   auto bad = [&](const char* what, double err) { report(c, p, series ? 's' : 'x', "law:C02/" + sv + "/InverseLine/" + what + "/" + subregime(p, o), wout(wit(p, solver), o).f("err_m", err).f("tol_m", 2 * T).f("line_s13", l.Distance()).f("line_a13", l.Arc()).f("lat", lat).f("lon", lon).f("azi", azi)); };
   if (!(epos <= 2 * T)) bad("position", epos);
   if (!(es <= T)) bad("distance", es);
@@ -254,10 +259,10 @@ static void check_pair(Ctx& c, Pair& p, const Opt& opt) {
     if (anti_lat_eff(p.lat1, p.lat2)) { double f1 = std::fabs(angdiff(os.azi1, ox.azi2)) * M_PI / 180 * mm, f2 = std::fabs(angdiff(os.azi2, ox.azi1)) * M_PI / 180 * mm; if (std::max(f1, f2) < std::max(e1, e2)) { e1 = f1; e2 = f2; } }
     if (fabsq(lon12q) == 180) { double f1 = std::fabs(angdiff(os.azi1, -ox.azi1)) * M_PI / 180 * mm, f2 = std::fabs(angdiff(os.azi2, -ox.azi2)) * M_PI / 180 * mm; if (std::max(f1, f2) < std::max(e1, e2)) { e1 = f1; e2 = f2; } }
     bool freeazi = p.regime == "coincident" || os.s12 == 0 || ox.s12 == 0 || (std::fabs(p.lat1) == 90 && p.lat1 == -p.lat2) || (p.e.f == 0 && std::fabs(os.a12 - 180) < 1e-9);
-    c.obs("series vs exact: |s12 difference| / (tol_s + tol_x)", es / tol, wit(p, "series").f("err_m", es));
+    obsv(c, p, 'b', "series vs exact: |s12 difference| / (tol_s + tol_x)", es / tol, wit(p, "series").f("err_m", es));
     if (es > tol) report(c, p, 'b', "law:C02/series-vs-exact/s12/" + subregime(p, ox), wout(wit(p, "series"), os).f("exact_s12", ox.s12).f("err_m", es).f("tol_m", tol));
     if (!freeazi) {
-      c.obs("series vs exact: azimuth difference*|m12| / (tol_s + tol_x)", std::max(e1, e2) / tol, wit(p, "series"));
+      obsv(c, p, 'b', "series vs exact: azimuth difference*|m12| / (tol_s + tol_x)", std::max(e1, e2) / tol, wit(p, "series"));
       if (std::max(e1, e2) > tol) report(c, p, 'b', "law:C02/series-vs-exact/azimuth/" + subregime(p, ox), wout(wit(p, "series"), os).f("exact_azi1", ox.azi1).f("exact_azi2", ox.azi2).f("err_m", std::max(e1, e2)).f("tol_m", tol));
     }
     double ea = std::fabs(os.a12 - ox.a12) * M_PI / 180 * S.b;
@@ -273,7 +278,7 @@ static void check_pair(Ctx& c, Pair& p, const Opt& opt) {
     auto one = [&](const char* solver, const Inv& o, double T) {
       double es = (double)fabsq((q128)o.s12 - rk.s12);
       std::string sv = solver;
-      c.obs("constructed: |s12 - s12_REF| / (tolerance + rounding) [" + sv + "]", es / (T + rk.d), wit(p, solver).f("err_m", es).f("round_m", rk.d));
+      obsv(c, p, sv == "series" ? 's' : 'x', "constructed: |s12 - s12_REF| / (tolerance + rounding) [" + sv + "]", es / (T + rk.d), wit(p, solver).f("err_m", es).f("round_m", rk.d));
       if (es > T + rk.d) report(c, p, sv == "series" ? 's' : 'x', "oracle:C02/" + sv + "/constructed/s12/" + subregime(p, o), wout(wit(p, solver), o).str("ref_s12", ref::qstr(rk.s12, 22)).f("err_m", es).f("tol_m", T + rk.d).str("regime", p.regime));
       // azimuths: only where moving point 2 by d is a small perturbation of the geodesic (linear regime).  The rounding of lon2
       // also rotates the local north at point 2 (meridian convergence): azi2 is compared with the author's azidiff formula.
@@ -286,7 +291,7 @@ static void check_pair(Ctx& c, Pair& p, const Opt& opt) {
         // documented alternatives where the rounded pair has two equally short geodesics
         if (anti_lat_eff(p.lat1, p.lat2)) e = std::min(e, std::max(e1of(o.azi2), e2of(o.azi1)));
         if (fabsq(lon12q) == 180) { e = std::min(e, std::max(e1of(-o.azi1), e2of(-o.azi2))); if (anti_lat_eff(p.lat1, p.lat2)) e = std::min(e, std::max(e1of(-o.azi2), e2of(-o.azi1))); }
-        c.obs("constructed: azimuth error*|m12| / (tolerance + 2 rounding) [" + sv + "]", e / (T + 2 * rk.d), wit(p, solver));
+        obsv(c, p, sv == "series" ? 's' : 'x', "constructed: azimuth error*|m12| / (tolerance + 2 rounding) [" + sv + "]", e / (T + 2 * rk.d), wit(p, solver));
         if (e > T + 2 * rk.d) report(c, p, sv == "series" ? 's' : 'x', "oracle:C02/" + sv + "/constructed/azimuth/" + subregime(p, o), wout(wit(p, solver), o).str("ref_azi1", ref::qstr(rk.azi1, 22)).str("ref_azi2", ref::qstr(rk.azi2, 22)).f("err_m", e).f("tol_m", T + 2 * rk.d));
         c.event("constructed azimuths judged");
       }
@@ -304,7 +309,7 @@ static void check_pair(Ctx& c, Pair& p, const Opt& opt) {
       if (chd * kmax < 1e-5) {
         q128 x = (q128)kmax * ch / 2, ub = ch * (1 + x * x / 6 + 3 * x * x * x * x / 40 + x * x * x * x * x * x);    // (2/k) asin(k c/2), rounded up
         double over = (double)((q128)o.s12 - ub);
-        c.obs(std::string("short line: (s12 - chord-arc bound) / tolerance [") + solver + "]", over / T, wit(p, solver));
+        obsv(c, p, solver[0] == 's' ? 's' : 'x', std::string("short line: (s12 - chord-arc bound) / tolerance [") + solver + "]", over / T, wit(p, solver));
         if (over > T) report(c, p, solver[0] == 's' ? 's' : 'x', std::string("oracle:C02/") + solver + "/not-shortest/chord-bound/" + p.regime + "/" + shape_of(p.e.f), wout(wit(p, solver), o).f("chord", chd).f("err_m", over).f("tol_m", T));
         c.event("short-line chord certificates");
       }
@@ -323,8 +328,8 @@ static void check_pair(Ctx& c, Pair& p, const Opt& opt) {
         auto one = [&](const char* solver, const Inv& o, double T, bool joined) {
           double over = (double)((q128)o.s12 - R.smin_q);
           std::string sv = solver;
-          c.obs("scan: (s12 - least joining length) / tolerance [" + sv + "]", over / T, wit(p, solver).f("err_m", over));
-          if (joined) c.obs("scan: (least joining length - s12) / tolerance, library's geodesic joins (scan missed it if > 1) [" + sv + "]", -over / T, wit(p, solver).f("err_m", -over));
+          obsv(c, p, sv == "series" ? 's' : 'x', "scan: (s12 - least joining length) / tolerance [" + sv + "]", over / T, wit(p, solver).f("err_m", over));
+          if (joined) obsv(c, p, sv == "series" ? 's' : 'x', "scan: (least joining length - s12) / tolerance, library's geodesic joins (scan missed it if > 1) [" + sv + "]", -over / T, wit(p, solver).f("err_m", -over));
           if (over > T) report(c, p, sv == "series" ? 's' : 'x', "oracle:C02/" + sv + "/not-shortest/scan/" + p.regime + "/" + shape_of(p.e.f),
                                wout(wit(p, solver), o).str("shorter_s12", ref::qstr(R.smin_q, 22)).str("shorter_azi_at_origin", ref::qstr(R.azi_origin_q, 18)).b("origin_is_point2", R.swapped).f("err_m", over).f("tol_m", T).i("nroots", R.nroots));
           if (-over > T && joined) c.event("global scans that missed the library's (joining) geodesic [" + sv + "]");
@@ -632,10 +637,10 @@ template <class G> static void sym_solver(Ctx& c, const gh::Solvers& S, const G&
       .f("img_s12", got.s12).f("img_azi1", got.azi1).f("img_azi2", got.azi2).f("img_a12", got.a12).f("img_m12", got.m12).f("img_M12", got.M12).f("img_M21", got.M21).f("img_S12", got.S12);
     std::string key = "law:C02/" + sv + "/symmetry/" + (gI.swap ? "swap" : "") + (gI.eq ? "+equator" : "") + (gI.mer ? "+meridian" : "") + ((gI.k1 || gI.k2) ? "+360k" : "");
     double es = std::fabs(got.s12 - want.s12), ea = std::fabs(got.a12 - want.a12) * M_PI / 180 * S.b;
-    c.obs("symmetry: |s12 image - s12| / tolerance [" + sv + "]", es / T, w);
+    obsv(c, p, wh, "symmetry: |s12 image - s12| / tolerance [" + sv + "]", es / T, w);
     if (es > T) report(c, p, wh, key + "/s12", J(w).f("err_m", es).f("tol_m", T));
     if (ea > T) report(c, p, wh, key + "/a12", J(w).f("err_m", ea).f("tol_m", T));
-    if (!conj) { double em = std::fabs(got.m12 - want.m12); c.obs("symmetry: |m12 image - m12| / tolerance [" + sv + "]", em / (2 * T), w); if (em > 2 * T) report(c, p, wh, key + "/m12", J(w).f("err_m", em).f("tol_m", 2 * T)); }
+    if (!conj) { double em = std::fabs(got.m12 - want.m12); obsv(c, p, wh, "symmetry: |m12 image - m12| / tolerance [" + sv + "]", em / (2 * T), w); if (em > 2 * T) report(c, p, wh, key + "/m12", J(w).f("err_m", em).f("tol_m", 2 * T)); }
     if (coincident || got.s12 == 0) { c.event("symmetry: coincident (azimuths free)"); continue; }
     // azimuths, scales, area: the predicted image or a documented alternative
     const double mm = std::max(std::fabs(o.m12), 0.0), rad = M_PI / 180;
@@ -662,8 +667,8 @@ template <class G> static void sym_solver(Ctx& c, const gh::Solvers& S, const G&
       if (eaz <= 2 * T && (conj || (eM <= tolM && eS <= tolS))) okalt = true;
       if (eaz < bestaz) { bestaz = eaz; bestM = eM; bestS = eS; }
     }
-    c.obs("symmetry: azimuth image residual*|m12| / tolerance [" + sv + "]", bestaz / (2 * T), w);
-    if (!conj) { c.obs("symmetry: M12/M21 image residual / tolerance [" + sv + "]", bestM / tolM, w); c.obs("symmetry: S12 image residual / tolerance [" + sv + "]", bestS / tolS, w); }
+    obsv(c, p, wh, "symmetry: azimuth image residual*|m12| / tolerance [" + sv + "]", bestaz / (2 * T), w);
+    if (!conj) { obsv(c, p, wh, "symmetry: M12/M21 image residual / tolerance [" + sv + "]", bestM / tolM, w); obsv(c, p, wh, "symmetry: S12 image residual / tolerance [" + sv + "]", bestS / tolS, w); }
     if (alts.size() > 1) c.event("symmetry: cases with documented alternatives");
     if (!okalt) report(c, p, wh, key + (bestaz > 2 * T ? "/azimuth" : bestM > tolM ? "/M12-M21" : "/S12"), J(w).f("err_az_m", bestaz).f("err_M", bestM).f("err_S", bestS).f("tol_m", 2 * T).f("tol_M", tolM).f("tol_S", tolS));
   }
